@@ -310,7 +310,7 @@ def oracle_c14(scn, raw, info):
 DESIGN_CFG = {
     # property: (quick cfg, thorough cfg) ; cfg = dict of constants for MC_Swarm
     'base': dict(Peers='{a, b}', NPieces=2, NBlocks='N2', EndGame=2, MaxUnchoked=1, OptRounds=3, KALimit=2, Pipeline='{2}', Rates='{0, 1}',
-                 Fuel=3, ConnFuel=1, TickFuel=0, MaxQ=1, HS0='TRUE', BFMenu='{{1, 2}, {1}}', Own0='{}'),
+                 Fuel=3, ConnFuel=1, TickFuel=0, MaxQ=1, HS0='TRUE', BFMenu='{{1, 2}, {1}}', Own0='{}', Bugs='{}'),
 }
 ALL_INV = ('TypeOK OwnedImpliesStored NoCacheWhileChoked RxShape AnnouncedInOrder DeferredWhileChoked ReservedBacked '
            'AskOnlyAdvertisedAndLacked NoPanic PickSound SlotBound ViewAgreement KaBound')
@@ -345,7 +345,7 @@ def model_scripts(pid, n, kinds=None, fuel=7):
     with open(cfg, 'w') as f:
         f.write('SPECIFICATION GSpec\nCONSTANTS\n  Peers = {a, b}\n  NPieces = 2\n  NBlocks <- NB21\n  EndGame = 2\n  MaxUnchoked = 1\n  OptRounds = 3\n'
                 '  KALimit = 2\n  Pipeline = {2}\n  Rates = {0}\n  Fuel = %d\n  ConnFuel = 2\n  TickFuel = 0\n  MaxQ = 2\n  HS0 = FALSE\n'
-                '  BFMenu = {{1, 2}, {1}, {2}, {}}\n  Own0 = {}\n  FrameKinds = {%s}\nINVARIANTS Emit NoPanic ReservedBacked OwnedImpliesStored\nCHECK_DEADLOCK FALSE\n'
+                '  BFMenu = {{1, 2}, {1}, {2}, {}}\n  Own0 = {}\n  Bugs = {}\n  FrameKinds = {%s}\nINVARIANTS Emit NoPanic ReservedBacked OwnedImpliesStored\nCHECK_DEADLOCK FALSE\n'
                 % (fuel, ', '.join('"%s"' % k for k in (kinds or GEN_KINDS))))
     res = run_tlc('MC_SwarmGen', cfg, pid, workers=1, simulate='num=%d' % (3 * n), depth=90, seed_arg=seed(), timeout=300, tag='gen')
     if res['violation']:
@@ -368,7 +368,7 @@ def design_live(pid, tier):
     big = tier != 'quick'
     with open(cfg, 'w') as f:
         f.write('SPECIFICATION LSpec\nCONSTANTS\n  Peers = {%s}\n  NPieces = %d\n  NBlocks <- %s\n  EndGame = 2\n  MaxUnchoked = 1\n  OptRounds = 3\n'
-                '  KALimit = 2\n  Pipeline = {2}\n  Rates = {0}\n  FrameKinds = {}\n  BFMenu = {}\n  Own0 = {}\n  HS0 = FALSE\n  Has <- %s\n  Leavers = {%s}\n'
+                '  KALimit = 2\n  Pipeline = {2}\n  Rates = {0}\n  FrameKinds = {}\n  BFMenu = {}\n  Own0 = {}\n  Bugs = {}\n  HS0 = FALSE\n  Has <- %s\n  Leavers = {%s}\n'
                 'INVARIANTS NoDeadEnd OwnedImpliesStored ReservedBacked\nPROPERTIES EventuallyComplete\nCHECK_DEADLOCK FALSE\n'
                 % (('"a", "b"', 3, 'N1x3', 'HasA', '"b"') if big else ('"a", "b"', 2, 'N1x2', 'HasQ', '"b"')))
     res = run_tlc('MC_SwarmLive', cfg, pid, workers=8 if tier == 'quick' else 14, timeout=5400, tag='live', xmx='16g')
